@@ -116,3 +116,58 @@ def run_both(ctx, model_exe, impl_exe, cases, tag="cases", timeout=600, fuel=200
     rc1, out1 = vcheck.sh("%s %d < %s" % (model_exe, fuel, cf), timeout=timeout)
     rc2, out2 = vcheck.sh([impl_exe, cf], timeout=timeout)
     return rc1, parse_logs(out1), rc2, parse_logs(out2), out2
+
+
+# ---------------------------------------------------------------------------------------------------------
+# Model-guided "window" schedules (aimed at the case splits of the proofs): the extracted model is run solo on each
+# operation kind to learn at which of its steps it writes shared memory (CAS / exchange); the generated schedules then
+# stall a victim thread right before such a write, let an actor thread run exactly through one of its own writes,
+# give the victim r more steps (r swept), let the remaining threads run, and finally let victim and actor finish.
+# These are ordinary schedules for model and implementation alike; they only make the rare interleavings (a CAS that
+# fails on a retry path, a validation that is passed just before the state changes) frequent.
+
+WRITE_KINDS = ("cas", "xchg")
+
+
+def thread_steps(lines, tid):
+    """the access lines (incl. the pseudo access 'begin') of thread tid, in order"""
+    p = "%d " % tid
+    return [l for l in lines if l.startswith(p) and l.split(" ")[1] != "ev"]
+
+
+def solo_profile(model_exe, workdir, cfg, setup_ops, op, fuel=20000, tag="probe"):
+    """Runs the model with thread 0 = setup_ops (scheduled first, to completion) and thread 1 = [op].
+    -> (number of steps of thread 1, 1-based indices of its steps that are CAS / exchange accesses)"""
+    threads = [list(setup_ops) if setup_ops else [], [op]]
+    if not threads[0]:
+        threads = [[op]]
+        tid = 0
+    else:
+        tid = 1
+    case = {"id": tag, "cfg": cfg, "threads": threads, "sched": [0] * 400 + [1] * 400}
+    cf = os.path.join(workdir, "%s.txt" % tag)
+    write_cases(cf, [case])
+    rc, out = vcheck.sh("%s %d < %s" % (model_exe, fuel, cf), timeout=120)
+    lg = parse_logs(out).get(tag)
+    if not lg:
+        return 0, []
+    st = thread_steps(lg["lines"], tid)
+    return len(st), [i + 1 for i, l in enumerate(st) if l.split(" ")[1] in WRITE_KINDS]
+
+
+def window_schedules(nthreads, prof, max_r=12, slack=8):
+    """prof[t] = (steps of thread t's whole program run solo, write positions of its FIRST operation).
+    Yields (name, schedule) for every ordered pair victim/actor, every pair of write positions and r in 0..max_r."""
+    for v in range(nthreads):
+        for a in range(nthreads):
+            if a == v:
+                continue
+            others = [t for t in range(nthreads) if t not in (v, a)]
+            for pv in prof[v][1]:
+                for pa in prof[a][1]:
+                    for r in range(max_r + 1):
+                        s = [v] * (pv - 1) + [a] * pa + [v] * r
+                        for t in others:
+                            s += [t] * (prof[t][0] + slack)
+                        s += [v] * (prof[v][0] + 3 * slack) + [a] * (prof[a][0] + 3 * slack)
+                        yield "w_v%d@%d_a%d@%d_r%d" % (v, pv, a, pa, r), s
